@@ -2,7 +2,7 @@
 REG_DRAFT = dict(
     engine='E1-enum',
     technique='bounded-exhaustive enumeration of (fixable lint trigger x placement) programs and of trigger pairs; `check --fix` is applied by the real code (iterated to a fixed point), each result is parsed and run on the real interpreter and compared with the original run',
-    text='Triggers for every lint that carries an autofix (unused literal of 5 shapes, unused let with pure / effectful / literal value, unused for variable / closure parameter / match payload / destructured name / function parameter, unused import, unused type parameter, unnecessary let, unnecessary return, repeated boolean operand in 6 shapes, list-length comparison in 4 shapes, unreachable match arm, missing match cases, and the type-checker fixes `+`/`+.`/`^` and method-name / missing-call suggestions in dead code) x placements (own line, same line before / after other code, last expression of a function / if branch / loop body, nested two deep, one-line nested, inside a call argument list (closure), next to comments, twice on one line, inside a closure, inside a match arm, at top level, in a test); every ordered pair of triggers on adjacent lines and on one line (quick: pairs on one line only for statement triggers). Oracle: every round of --fix yields a program that parses; if the original ran without error every round has the same stdout, function result and test verdicts; a fixed point is reached in <=5 rounds; violations are re-run through `garden check --fix --stdout`.',
+    text='Triggers for every lint that carries an autofix (unused literal of 5 shapes, unused let with pure / effectful / literal value, unused for variable / closure parameter / match payload / destructured name / function parameter, unused import, unused type parameter, unnecessary let, unnecessary return, repeated boolean operand in 6 shapes, list-length comparison in 4 shapes, unreachable match arm, missing match cases, and the type-checker fixes `+`/`+.`/`^` and method-name / missing-call suggestions in dead code) x placements (own line, same line before / after other code, last expression of a function / if branch / loop body, nested two deep, one-line nested, inside a call argument list (closure), next to comments, twice on one line, inside a closure, inside a match arm, at top level, in a test); every ordered pair of triggers on adjacent lines and on one line (thorough: also inside a closure, separated by a comment line, on one line inside a nested block, and pairs involving item-level triggers). Oracle: every round of --fix yields a program that parses; if the original ran without error every round has the same stdout, function result and test verdicts; a fixed point is reached in <=5 rounds; violations are re-run through `garden check --fix --stdout`.',
     note='Programs are ASCII text templates; the type-checker fixes are placed in dead code (the original must run without error for the behaviour clause to apply).',
     design_ref='DESIGN.md §6 C22',
 )
@@ -181,6 +181,12 @@ def pair_programs(ts, quick):
                 out.append((f"adjacent lines", a, b, body_prog("  p(1)\n  " + "\n  ".join(A + B) + "\n  p(2)", items)))
             if "\n" not in onea and "\n" not in oneb and a["kind"] != "item" and b["kind"] != "item":
                 out.append(("one line", a, b, body_prog(f"  p(1)\n  {onea} {oneb}\n  p(2)", items)))
+                if not quick:
+                    out.append(("one line", a, b, body_prog(f"  p(1)\n  if bt {{ {onea} {oneb} p(2) }}\n  p(3)", items)))
+            if not quick:
+                inner = "\n    ".join(x.replace("\n  ", "\n    ") for x in A + B)
+                out.append(("adjacent lines", a, b, body_prog(f"  p(1)\n  let h = fun() {{\n    {inner}\n    p(2)\n  }}\n  h()\n  p(3)", items)))
+                out.append(("adjacent lines", a, b, body_prog("  p(1)\n  " + "\n  ".join(A) + "\n  // between\n  " + "\n  ".join(B) + "\n  p(2)", items)))
     return out
 
 
